@@ -183,22 +183,74 @@ def minorGrid (ref : Grid) (cg : CoarseGrid) : Grid :=
   { pts := I.map (ref.pts.getD · 0), idx := I, dt := I.map (ref.dt.getD · 0), Dt := I.map (ref.Dt.getD · 0),
     df := I.map (ref.df.getD · 0) }
 
-/-- the price series with every entry replaced by the plain mean of its coarse step, at the fine steps -/
+/-- a vector over the coarse steps read at the owner of every fine step: the price series with every entry replaced
+    by the plain mean of its coarse step, at the fine steps -/
 def spreadList (owner : List Nat) (v : List Rat) : List Rat := owner.map (v.getD · 0)
 
-/-- a coarse point `z` (one value per coarse variable, `blocks` blocks of `Tc` variables: 1 for `disp`, 2 for
-    `disp_in | disp_out`) expanded to the fine variables (`blocks` blocks of `Tf`): every fine step gets the share
-    `dt_fine/dt_coarse` of its coarse step's volume -/
-def expand (owner : List Nat) (w : List Rat) (Tc : Nat) (z : Vec) : Vec := fun j =>
-  let Tf := owner.length
-  if Tf = 0 then 0 else
-  z (Tc * (j / Tf) + owner.getD (j % Tf) 0) * w.getD (j % Tf) 0
+/-- the same for vectors that may hold NaN -/
+def spreadO (owner : List Nat) (v : List (Option Rat)) : List (Option Rat) := owner.map (v.getD · none)
 
-/-- "same RATE in all fine steps of a coarse step": volume over step length agrees for any two fine variables of
-    the same block and the same coarse step (`dts` = length of every fine step in order) -/
+/-- THE FINE PROBLEM a coarse simple contract is compared with: `SimpleContract.setup_optim_problem` of the `freq=None`
+    path (`simpleCore`) on the fine steps of the coarse grid, with the price series replaced by its plain mean per
+    coarse step (the same constructor check and price look-up in front) -/
+def fineSimpleContract (p : ContractP) (ref : Grid) (cg : CoarseGrid) (prices : Prices) (fullT : Nat) :
+    Except BuildError AssetProblem := do
+  if scalarIllPosed p.minCap p.maxCap then throw .illPosed
+  let price ← coarsePrice p.price cg.minor prices fullT
+  simpleCore p (minorGrid ref cg) prices (spreadList cg.owner price)
+
+/-- the same for a transport -/
+def fineTransport (p : TransportP) (ref : Grid) (cg : CoarseGrid) (prices : Prices) (fullT : Nat) :
+    Except BuildError AssetProblem := do
+  match p.nodes with
+  | [n0, n1] =>
+    if p.maxCap < p.minCap then throw .assertion
+    if ¬ (0 < p.efficiency) then throw .assertion
+    let cts ← coarseCosts p.costsKey cg.minor prices fullT
+    transportCore p n0 n1 (minorGrid ref cg) (spreadList cg.owner cts)
+  | _ => throw .assertion
+
+/-- a coarse point `z` (one value per coarse variable, in blocks of `Tc` variables: one block `disp`, or two blocks
+    `disp_in | disp_out`) expanded to the fine variables (blocks of `Tf` = number of fine steps): every fine step gets
+    the share `dt_fine/dt_coarse` of its coarse step's volume -/
+def expand (owner : List Nat) (w : List Rat) (Tc : Nat) (z : Vec) : Vec := fun j =>
+  z (Tc * (j / owner.length) + owner.getD (j % owner.length) 0) * w.getD (j % owner.length) 0
+
+/-- "same RATE in all fine steps of a coarse step": volume over step length agrees for any two of the first `n` fine
+    variables that belong to the same block and the same coarse step (`dts` = length of every fine step in order;
+    written without division) -/
 def SameRate (owner : List Nat) (dts : List Rat) (n : Nat) (x : Vec) : Prop :=
   ∀ j k, j < n → k < n → j / owner.length = k / owner.length →
     owner.getD (j % owner.length) 0 = owner.getD (k % owner.length) 0 →
     x j * dts.getD (k % owner.length) 0 = x k * dts.getD (j % owner.length) 0
+
+/-! ## the hypotheses under which coarse and fine problem agree -/
+
+/-- what the builders use of a coarse grid (all of it holds for `Grid.coarsen` on a top-level grid with positive step
+    lengths and increasing points, `EAO.C13B.coarsen_wellFormed`): per-step lists of equal length, distinct indices,
+    every coarse step as long as its minor steps together, which exist and have positive length -/
+structure CoarseGrid.WellFormed (cg : CoarseGrid) (dtFine : List Rat) : Prop where
+  ok : cg.grid.Ok
+  minorLen : cg.minor.length = cg.grid.T
+  nodup : cg.grid.idx.Nodup
+  dtSum : ∀ i, i < cg.minor.length → cg.grid.dt.getD i 0 = ((cg.minor.getD i []).map (dtFine.getD · 0)).sum
+  dtPos : ∀ cell, cell ∈ cg.minor → ∀ t, t ∈ cell → 0 < dtFine.getD t 0
+  nonempty : ∀ cell, cell ∈ cg.minor → cell ≠ []
+
+/-- no discounting, or equal discount factors inside every coarse step (the coarse step carries the factor of its
+    first minor step; the complement is finding F-13h) -/
+def EqualDiscount (ref : Grid) (cg : CoarseGrid) : Prop :=
+  ∀ i, i < cg.minor.length → ∀ t, t ∈ cg.minor.getD i [] → ref.df.getD t 0 = cg.grid.df.getD i 0
+
+/-- capacities and extra costs constant inside every coarse step: evaluated on the fine steps they are the values
+    of the coarse steps (the coarse step carries the value at its first minor step / its point; the complement is
+    finding F-13i).  Scalars always satisfy this (`EAO.C13B.constInside_scalar`). -/
+structure ConstInside (p : ContractP) (ref : Grid) (cg : CoarseGrid) (prices : Prices) : Prop where
+  maxCap : baseVector p.maxCap (minorGrid ref cg) prices none
+             = (baseVector p.maxCap cg.grid prices none).map (spreadO cg.owner)
+  minCap : baseVector p.minCap (minorGrid ref cg) prices none
+             = (baseVector p.minCap cg.grid prices none).map (spreadO cg.owner)
+  extra  : baseVector p.extraCosts (minorGrid ref cg) prices (some 0)
+             = (baseVector p.extraCosts cg.grid prices (some 0)).map (spreadO cg.owner)
 
 end EAO
